@@ -31,6 +31,10 @@ template <class T> struct VectorBase
       if(is_input) __CPROVER_assume(-RAT_BOUND <= val[n] && val[n] <= RAT_BOUND);
       return val[n];
    }
+   /* extension hooks: units that reuse this host (units/ratrecon_check) add members here; empty for ratviol */
+#ifdef RATVEC_EXTRA_FILE
+#include RATVEC_EXTRA_FILE
+#endif
 };
 typedef VectorBase<Rational> VectorRational;
 
@@ -51,6 +55,9 @@ template <class T> struct SoPlexBase
 #include "RangeType.inc"
 #include "IntParam.inc"
 #include "RealParam.inc"
+#ifdef RAT_SOPLEXBASE_EXTRA_FILE
+#include RAT_SOPLEXBASE_EXTRA_FILE
+#endif
 };
 
 /* SPxLPRational: only what the bodies read (through the sliced accessors lowerRational(i) ...) */
@@ -64,14 +71,26 @@ struct RatLP
    const Rational& upper(int i) const { return up[i]; }
    const Rational& lhs(int i) const { return left[i]; }
    const Rational& rhs(int i) const { return right[i]; }
+#ifdef RAT_LP_EXTRA
+   RAT_LP_EXTRA
+#endif
 };
 /* SolBase<Rational>: SoPlexBase is a friend and reads the members directly */
 struct SolRational
 {
    VectorRational _primal, _slacks, _dual, _redCost;
+#ifdef RAT_SOL_EXTRA
+   RAT_SOL_EXTRA
+#endif
 };
-struct TimerStub { Real now; Real time() const { return now; } };
-struct Statistics { TimerStub* solvingTime; int iterations; int refinements; int stallRefinements; };
+struct TimerStub { Real now; Real time() const { return now; } void start() {} void stop() {} };
+struct Statistics
+{
+   TimerStub* solvingTime; int iterations; int refinements; int stallRefinements;
+#ifdef RAT_STAT_EXTRA
+   RAT_STAT_EXTRA
+#endif
+};
 struct SettingsStub
 {
    int _intParamValues[SoPlexBase<R>::INTPARAM_COUNT];
